@@ -19,6 +19,7 @@ from .. import genfile
 from ..ref import smf
 
 ID = 'C08'
+ANCHORS = ['mido.midifiles.midifiles', 'mido.midifiles.meta']
 LEVEL = 'exploration'
 RULE = ('seeded event lists (vmon/genfile.py: channel runs and breakers, system common, '
         'sysex, all known and unknown meta types, VLQ-boundary deltas and lengths); write '
